@@ -39,3 +39,18 @@ Proof. exact sx1272_ldro_survives_prepare. Qed.
 Theorem C15_sx1276_modulation_writes_ldro : forall c3 l, (c3 < 256 ->
   N.testbit (mod_c3_1276 c3 l) 3 = negb (l =? 0) /\ N.land (mod_c3_1276 c3 l) 0xF3 = N.land c3 0xF3)%N.
 Proof. exact sx1276_modulation_writes_ldro. Qed.
+
+(* the functions above are what goes over the bus: the SPI transactions of the SX1272 operations as a function of the bytes read *)
+From LoraV Require Import Model.PhyCore Proofs.PhySeq Proofs.PhySeq127 Gen.PhyTables Model.Sx126x.
+Theorem C15_sx1272_bus_modulation : forall sfv bwv crv l c1 c2 rest,
+  spi_seq (set_mod_1272 sfv bwv crv l) ([c1] :: [c2] :: rest) =
+  [ds7_read s7_Register_RegModemConfig1; ds7_write s7_Register_RegModemConfig1 (mod_c1_1272 c1 bwv crv l);
+   ds7_read s7_Register_RegModemConfig2; ds7_write s7_Register_RegModemConfig2 (N.lor (N.land c2 15) (u8 (sfv * 16)))].
+Proof. exact seq_set_mod_1272. Qed.
+Theorem C15_sx1272_bus_packet : forall g pre im len crc iq c1 rest, h_variant g = V1272 ->
+  spi_seq (set_pkt_127 g pre im len crc iq) ([c1] :: rest) =
+  [ds7_write s7_Register_RegPreambleMsb (hi8 pre); ds7_write s7_Register_RegPreambleLsb (lo8 pre);
+   ds7_read s7_Register_RegModemConfig1; ds7_write s7_Register_RegModemConfig1 (pkt_c1_1272 c1 im crc)] ++
+  (if im then [ds7_write s7_Register_RegPayloadLength len] else []) ++
+  [ds7_write s7_Register_RegInvertiq (N.lor 0x26 (if iq then 64 else 1)); ds7_write s7_Register_RegInvertiq2 (if iq then 0x19 else 0x1d)].
+Proof. exact seq_set_pkt_1272. Qed.
